@@ -49,10 +49,10 @@ PROPS = {
         assumptions=_CS_ASSUME,
     ),
     "C02": dict(
-        suite="coinswap", modules=["CantoVerif.Props.C02"] + _CS_BRIDGE_MODULES,
+        suite="coinswap", modules=["CantoVerif.Props.C02", "CantoVerif.Props.C02Monitors"] + _CS_BRIDGE_MODULES,
         theorems=["CV.Coinswap.rejected_unchanged", "CV.Coinswap.swap_conserves", "CV.Coinswap.remove_conserves",
                   "CV.Coinswap.add_conserves", "CV.group_flow", "CV.within_conserves", "CV.Bank.applyAll_flow",
-                  "CV.deliver_rejected_unchanged", "CV.later_failure_unchanged", "CV.runMsgs_fails", "CV.Coinswap.poolTax_ok", "CV.total_supply_inv", "CV.Coinswap.rejected_unchanged_monitor", "CV.Coinswap.swap_conserves_monitor", "CV.Coinswap.nodup_eraseDups"] + _CS_BRIDGE_CORE,
+                  "CV.deliver_rejected_unchanged", "CV.later_failure_unchanged", "CV.runMsgs_fails", "CV.Coinswap.poolTax_ok", "CV.total_supply_inv", "CV.Coinswap.rejected_unchanged_monitor", "CV.Coinswap.swap_conserves_monitor", "CV.Coinswap.remove_conserves_monitor", "CV.Coinswap.removeEffs_sender_lpt", "CV.Coinswap.nodup_eraseDups"] + _CS_BRIDGE_CORE,
         comps={"outcome", "bank", "pools"}, triggers=_CS_TRIGGERS, assumptions=_CS_ASSUME),
     "C08": dict(
         suite="coinswap", modules=["CantoVerif.Props.C08", "CantoVerif.Props.C08AutoSwap"] + _CS_BRIDGE_MODULES,
